@@ -121,6 +121,8 @@ def cases(rng, tier):
         vals = [T.random_value(rng, s, big=(tier == 'thorough' and rng.random() < 0.02)) for s in fs]
         yield {'kind': 'gen', 'schema': [T.strip_classes(s) for s in fs], 'values': [T.jval(v) for v in vals],
                'mut': _mutation(rng, fs, vals)}
+    for _ in range(60 if tier == 'quick' else 3000):
+        yield _inherit_case(rng)
     for _ in range(n_ship):
         path = rng.choice(SHIPPED)
         fs = T.class_schema(_cls(path))
@@ -128,7 +130,82 @@ def cases(rng, tier):
         yield {'kind': 'shipped', 'cls': path, 'values': [T.jval(v) for v in vals], 'mut': _mutation(rng, fs, vals)}
 
 
+def _leaf(rng, used):
+    while True:
+        t = rng.choice([rng.randint(1, 252), rng.randint(1, 252), 253, 256, 65536 + rng.randint(0, 9)])
+        if t not in used and t != 7:
+            used.add(t)
+            break
+    k = rng.choice(['U', 'Y', 'B'])
+    return ['U', t, rng.choice([None, None, 2])] if k == 'U' else ['Y', t, rng.random() < 0.3] if k == 'Y' else ['B', t]
+
+
+def _inherit_case(rng):
+    """a derived TlvModel class: own fields, IncludeBase(Base) at a random position, overrides of base fields (before or
+    after the IncludeBase); values are assigned by field name"""
+    used = set()
+    base = [_leaf(rng, used) for _ in range(rng.randint(1, 4))]
+    derived = [['own', _leaf(rng, used)] for _ in range(rng.randint(0, 3))]
+    derived.insert(rng.randint(0, len(derived)), ['inc'])
+    for i in rng.sample(range(len(base)), rng.randint(0, min(2, len(base)))):
+        derived.insert(rng.randint(0, len(derived)), ['ovr', i, _leaf(rng, used)])
+    names, vals = _inherit_expected(base, derived)
+    values = {n: T.jval(T.random_value(rng, T.unstrip(s), present=0.85)) for n, s in names}
+    return {'kind': 'inh', 'base': base, 'derived': derived, 'values': values,
+            'mut': {'kind': 'none', 'gap': 0, 'r': 0, 'even': 2, 'odd': 3, 'payload': ''}}
+
+
+def _inherit_expected(base, derived):
+    """the field order the documentation of TlvModel / IncludeBase promises: attributes in definition order; a
+    name seen before (own, or brought in by IncludeBase) is replaced where it stands, a new name is appended"""
+    order, pos = [], {}
+
+    def put(name, schema):
+        if name in pos:
+            order[pos[name]] = (name, schema)
+        else:
+            pos[name] = len(order)
+            order.append((name, schema))
+    k = 0
+    for d in derived:
+        if d[0] == 'own':
+            put(f'o{k}', d[1])
+            k += 1
+        elif d[0] == 'inc':
+            for i, s in enumerate(base):
+                put(f'b{i}', s)
+        else:
+            put(f'b{d[1]}', d[2])
+    return order, None
+
+
+def _inherit_classes(case):
+    from ndn.encoding import tlv_model as tm
+    battrs = {}
+    for i, s in enumerate(case['base']):
+        battrs[f'b{i}'] = T._build_field(T.unstrip(s))[0]
+    Base = type('InhBase', (tm.TlvModel,), battrs)
+    dattrs, k = {}, 0
+    for d in case['derived']:
+        if d[0] == 'own':
+            dattrs[f'o{k}'] = T._build_field(T.unstrip(d[1]))[0]
+            k += 1
+        elif d[0] == 'inc':
+            dattrs['_inc'] = tm.IncludeBase(Base)
+        else:
+            dattrs[f'b{d[1]}'] = T._build_field(T.unstrip(d[2]))[0]
+    return type('InhDerived', (Base,), dattrs)
+
+
 def shrink(case):
+    if case['kind'] == 'inh':
+        d = case['derived']
+        for i in range(len(d)):
+            if d[i][0] != 'inc':
+                d2 = d[:i] + d[i + 1:]
+                names, _ = _inherit_expected(case['base'], d2)
+                yield dict(case, derived=d2, values={n: case['values'].get(n) for n, _ in names})
+        return
     vals = case['values']
     for i, v in enumerate(vals):
         if v is not None:
@@ -149,6 +226,12 @@ def shrink(case):
 
 # -------------------------------------------------------------------------- implementation
 def _setup(case):
+    if case['kind'] == 'inh':
+        cls = _inherit_classes(case)
+        names, _ = _inherit_expected(case['base'], case['derived'])
+        fs = [T.unstrip(sch) for _, sch in names]          # the EXPECTED field list (documented merge rule)
+        vals = [T.unjval(case['values'].get(n)) for n, _ in names]
+        return cls, fs, vals
     if case['kind'] == 'gen':
         fs0 = [T.unstrip(s) for s in case['schema']]
         cls, fs = T.build_class(fs0)
@@ -160,19 +243,27 @@ def _setup(case):
 
 
 def _elements(wire):
-    """split a well-formed TLV sequence into (type, whole-element bytes)"""
+    """split a TLV sequence into (type, whole-element bytes); stops at the first element it cannot read"""
     out, off = [], 0
-    while off < len(wire):
-        def num(o):
-            b = wire[o]
-            if b <= 0xFC:
-                return b, 1
-            w = {0xFD: 2, 0xFE: 4, 0xFF: 8}[b]
-            return int.from_bytes(wire[o + 1:o + 1 + w], 'big'), 1 + w
-        t, st = num(off)
-        l, sl = num(off + st)
-        out.append((t, wire[off:off + st + sl + l]))
-        off += st + sl + l
+    try:
+        while off < len(wire):
+            def num(o):
+                b = wire[o]
+                if b <= 0xFC:
+                    return b, 1
+                w = {0xFD: 2, 0xFE: 4, 0xFF: 8}[b]
+                if o + 1 + w > len(wire):
+                    raise IndexError
+                return int.from_bytes(wire[o + 1:o + 1 + w], 'big'), 1 + w
+            t, st = num(off)
+            l, sl = num(off + st)
+            if off + st + sl + l > len(wire):
+                raise IndexError
+            out.append((t, wire[off:off + st + sl + l]))
+            off += st + sl + l
+    except IndexError:
+        if off < len(wire):
+            out.append((-1, wire[off:]))
     return out
 
 
@@ -213,8 +304,20 @@ def _mutate(wire, m):
 def run_impl(case):
     cls, fs, vals = _setup(case)
     out = {'schema_text': T.schemas_text(fs), 'values_text': T.values_text(vals)}
+    names = None
+    if case['kind'] == 'inh':
+        names = [n for n, _ in _inherit_expected(case['base'], case['derived'])[0]]
+        actual = [T.strip_classes(x) for x in T.class_schema(cls)]
+        out['merged_as_documented'] = (actual == [T.strip_classes(x) for x in fs]
+                                       and [f.name for f in cls._encoded_fields] == names)
     try:
-        inst = T.to_instance(cls, fs, vals)
+        if names is None:
+            inst = T.to_instance(cls, fs, vals)
+        else:
+            inst = cls()
+            inst.__dict__.clear()
+            for n, sch, v in zip(names, fs, vals):
+                inst.__dict__[n] = T.to_py(sch, v)
         announced = inst.encoded_length()
         wire = bytes(inst.encode())
         out['enc'] = ['ok', wire.hex(), announced]
@@ -229,7 +332,10 @@ def run_impl(case):
     out['mwire'] = mw.hex()
     try:
         back = cls.parse(mw)
-        out['parse'] = ['ok', T.values_text(T.from_instance(fs, back))]
+        if names is None:
+            out['parse'] = ['ok', T.values_text(T.from_instance(fs, back))]
+        else:
+            out['parse'] = ['ok', T.values_text([T.from_py(sch, back.__dict__.get(n)) for n, sch in zip(names, fs)])]
     except Exception as e:     # noqa
         out['parse'] = ['err', _exc(e)]
     # what the property statement predicts for this mutation (None = no prediction)
@@ -351,6 +457,8 @@ def impl_obs(impl):
 
 # ------------------------------------------------------------------------------------- oracle
 def oracle(case, impl):
+    if impl.get('merged_as_documented') is False:
+        return 'a derived model class does not list its fields in the documented order (own fields, IncludeBase, overrides)'
     if impl['enc'][0] == 'err':
         return f"encoding a legal value raised {impl['enc'][1]}"
     _, wire, announced = impl['enc']
